@@ -330,6 +330,12 @@ def _garbage_layout(sc, mode="other"):
     HV.reset()
     osn, srvn, procn = names(sc)
     rev = lambda ns: {n: False for n in reversed(ns)}
+    if mode != "other":
+        # history: a scenario with a completely different layout came first, so that whatever the class remembers about
+        # "the layout it was last initialised for" cannot make the next (permuted) initialisation a no-op
+        HV._initialize((sc["bounds"][0] + 2, sc["bounds"][1] + 3), {"x": False, "y": False, "z": False}, {"p": False},
+                       {"q": False, "r": False, "s": False, "t": False})
+        HV.reset()
     if mode == "same-names-permuted":
         HV._initialize(tuple(sc["bounds"]), rev(srvn), rev(osn), rev(procn))
     elif mode == "same-names-other-bounds":
